@@ -278,6 +278,11 @@ def accept_poll(E, st, place, ctx):
     q = E.rt.setdefault('incoming', 0)
     if q <= 0:
         return PENDING
+    # accept() itself can fail (EMFILE, ECONNABORTED, ...): the connection stays in the backlog / is gone, the loop goes on
+    if E.rt.get('accept_errors', 0) > 0 and E.decide(E.fresh('accept_fails', 'bool')):
+        E.rt['accept_errors'] -= 1
+        E.events.append(('accept.error',))
+        return ready(err(Opaque('io::Error')))
     E.rt['incoming'] = q - 1
     E.events.append(('accept',))
     sock = Sock(BV(0), BV(0), 'silent')
@@ -305,6 +310,7 @@ def run_accept_loop(ck, tier):
                 E.assume(c)
             w = World(E, st)
             E.rt['incoming'] = incoming
+            E.rt['accept_errors'] = 1
             E.peer_addr_may_fail = True
             cfg = mk(E, 'MemcacheServerConfig', timeout_secs=BV(60, 32), connection_limit=BV(3, 32), item_memory_limit=BV(1 << 20, 32), listen_backlog=BV(16, 32))
             semref = Ref(E.alloc(Agg('Semaphore', [P])))
@@ -317,12 +323,20 @@ def run_accept_loop(ck, tier):
             ev1 = [e[0] for e in E.events if e[0] in ('accept', 'sem.acquire', 'sem.forget', 'spawn', 'sem.wait', 'sem.release_on_drop')]
             # a served connection ends: its Client is dropped and returns the permit; the loop is polled again
             E.store(semref, Agg('Semaphore', [E.load(semref).fields[0] + 1]))
-            r2 = E.call(E.heap[cell].fn, [Agg('Pin', [Ref(cell)]), Opaque('cx')])
+            # (a future that has completed - the loop ended - is not polled again)
+            r2 = E.call(E.heap[cell].fn, [Agg('Pin', [Ref(cell)]), Opaque('cx')]) if r1.var == 1 else r1
             spawned2 = len(E.tasks)
             permits2 = E.load(semref).fields[0]
             ev2 = [e[0] for e in E.events if e[0] in ('accept', 'sem.acquire', 'sem.forget', 'spawn', 'sem.wait', 'sem.release_on_drop')]
-            evk = [e[0] for e in E.events if e[0] == 'peer_addr']
-            return dict(evk=evk, r1=r1.var, spawned1=spawned1, permits1=permits1, ev1=ev1, r2=r2.var, spawned2=spawned2, permits2=permits2, ev2=ev2)
+            evk = [e[0] for e in E.events if e[0] in ('peer_addr', 'accept.error')]
+            # every connection ends (each live task returns its permit through Drop for Client), then `limit` fresh ones arrive
+            live = spawned2 - 1
+            E.store(semref, Agg('Semaphore', [E.load(semref).fields[0] + BV(live)]))
+            E.rt['incoming'] = 3
+            E.rt['accept_errors'] = 0
+            r3 = E.call(E.heap[cell].fn, [Agg('Pin', [Ref(cell)]), Opaque('cx')]) if r2.var == 1 else r2
+            spawned3 = len(E.tasks)
+            return dict(r3=r3.var, spawned3=spawned3, evk=evk, r1=r1.var, spawned1=spawned1, permits1=permits1, ev1=ev1, r2=r2.var, spawned2=spawned2, permits2=permits2, ev2=ev2)
         res = ck.explore(h)
 
         def on_w(m, where):
@@ -337,31 +351,21 @@ def run_accept_loop(ck, tier):
             # listener keeps accepting: the run future never completes
             ck.obligation(f'accept loop, {n} incoming: the accept loop never ends because of one connection', p.pc,
                           z3.BoolVal(F['r1'] == 1 and F['r2'] == 1), {}, lambda m, where: native_accept_reset(ck), [])
-            if F['r1'] != 1 or F['r2'] != 1 or 'peer_addr' in F.get('evk', []):
+            if F['r1'] != 1 or F['r2'] != 1 or F['r3'] != 1:
+                continue
+            # after any history (failed accepts and failed socket set-up included) the server can again serve `limit` fresh connections
+            ck.obligation(f'accept loop, {n} incoming: once every connection has ended, `limit` fresh connections are served again', p.pc,
+                          BV(F['spawned3'] - F['spawned2']) == P, {}, lambda m, where: native_accept_error(ck), [])
+            if 'peer_addr' in F.get('evk', []) or 'accept.error' in F.get('evk', []):
+                ck.cover('accept loop: a failed accept / socket set-up is survived', True)
                 continue
             exp1 = z3.If(z3.ULT(P, n), P, BV(n))
             ck.obligation(f'accept loop, {n} incoming: connections handed to tasks = min(incoming, free permits)', p.pc,
                           BV(F['spawned1']) == exp1, {}, on_w, [])
-            ck.obligation(f'accept loop, {n} incoming: every spawned task holds exactly one forgotten permit', p.pc,
-                          F['permits1'] == P - BV(F['spawned1']), {}, on_w, [])
-            # order: each spawn is preceded by its own acquire + forget
-            ok_order = True
-            have = 0
-            for e in F['ev2']:
-                if e == 'sem.forget':
-                    have += 1
-                elif e == 'spawn':
-                    if have <= 0:
-                        ok_order = False
-                    have -= 1
-                elif e == 'sem.release_on_drop':
-                    ok_order = False
-            ck.obligation(f'accept loop, {n} incoming: a permit is taken and forgotten before each spawn, never dropped', p.pc, z3.BoolVal(ok_order), {}, on_w, [])
             # after a permit came back: exactly one more waiting connection is served, if any was waiting
             waiting = z3.UGT(BV(n), P)
             ck.obligation(f'accept loop, {n} incoming: a returned permit lets exactly one waiting connection in', p.pc,
-                          z3.And(BV(F['spawned2'] - F['spawned1']) == z3.If(waiting, BV(1), BV(0)),
-                                 F['permits2'] == P - BV(F['spawned1']) + 1 - BV(F['spawned2'] - F['spawned1'])), {}, on_w, [])
+                          BV(F['spawned2'] - F['spawned1']) == z3.If(waiting, BV(1), BV(0)), {}, on_w, [])
             ck.cover(f'accept loop: {"some connection waits" if F["spawned1"] < n else "all served"}', True)
             ck.sample({'incoming': n, 'events': F['ev2'], 'spawned_first_poll': F['spawned1'], 'spawned_after_release': F['spawned2']})
 
@@ -385,6 +389,22 @@ def native_accept(ck):
            f"C (opened while B is still open) served={c_served}"
     bad = c_served or not a_served or not b_waited or not b_later
     return (True if bad else None), desc, sc
+
+
+def native_accept_error(ck):
+    """loopback, connection limit 2: A connects while the process has no free file descriptor (the server's accept() fails with
+    EMFILE for 300 ms), then descriptors are available again: A must be served; A closes; then B and C must both be served at once."""
+    from .wire import frame
+    noop = frame(0x0a, opaque=9).hex()
+    sc = {'kind': 'socket', 'item_limit': 1024, 'timeout_secs': 5, 'connection_limit': 2, 'final_wait_ms': 300,
+          'conns': [{'chunks': [noop], 'pause_ms': 40, 'read_ms': 1500, 'end': 'hold', 'fd_exhaustion_ms': 300},
+                    {'chunks': [noop], 'pause_ms': 40, 'read_ms': 600, 'end': 'hold', 'close_first': [0]},
+                    {'chunks': [noop], 'pause_ms': 40, 'read_ms': 600, 'end': 'hold'}]}
+    out = ck.replay([sc])[0]
+    c = out['conns']
+    served = [len(x.get('received', '')) >= 48 or len(x.get('later_received', '')) >= 48 for x in c]
+    desc = f"connection limit 2: A connects while accept() fails with EMFILE for 300 ms: served={served[0]}; A closes; B and C connect: served={served[1]}, {served[2]}"
+    return (None if all(served) else True), desc, sc
 
 
 def native_accept_reset(ck):
